@@ -16,6 +16,45 @@ from annet.annlib.netdev.views.hardware import HardwareView
 from annet.vendors import registry_connector
 
 
+# concrete models behind the corpus's vendor-level stubs: rulebook texts and logic functions branch on the model
+# (%if hw.Huawei.CE, hw.Huawei.NE, hw.Quidway, hw.Cisco.C2960 ...), and both front ends must use the SAME one
+MODELS = {
+    "Huawei": ["Huawei CE6870", "Huawei NE40E", "Huawei S5700", "Huawei Quidway S2350"],
+    "Huawei CE0000": ["Huawei CE6870", "Huawei CE8850"],
+    "Cisco Catalyst": ["Cisco Catalyst 2960", "Cisco WS-C3750", "Cisco Catalyst 3650"],
+    "Cisco Nexus": ["Cisco Nexus 9316", "Cisco Nexus 3432", "Cisco Nexus 9504"],
+    "Cisco ASR": ["Cisco ASR 9000"],
+    "Arista": ["Arista DCS-7280"],
+    "Juniper": ["Juniper MX960", "Juniper QFX5100"],
+    "Aruba": ["Aruba AP-515"],
+}
+
+STATS = {"via_files": 0, "direct": 0}
+
+
+def _file_front_end(hwm, old, new, fmt):
+    """The real file front end as file_patch_worker runs it: both configurations are written to files, read
+    back with api._read_old_new_hw(args.hw = the model string) and handed to _read_old_new_diff_patch with
+    the hardware that reader returns.  Only when the vendor text round-trips (C04's domain); None otherwise."""
+    try:
+        to, tn = fmt.join(old), fmt.join(new)
+    except Exception:  # noqa
+        return None
+    with tempfile.TemporaryDirectory(prefix="c16-") as d:
+        op, np_ = os.path.join(d, "old.cfg"), os.path.join(d, "new.cfg")
+        with open(op, "w") as f:
+            f.write(to)
+        with open(np_, "w") as f:
+            f.write(tn)
+        try:
+            _, o2, n2, hw2 = api._read_old_new_hw(op, np_, SimpleNamespace(hw=hwm))
+        except Exception:  # noqa
+            return None
+    if o2 != old or n2 != new:
+        return None
+    return o2, n2, hw2
+
+
 def both(hwm, old, new):
     OVERRIDE.pop("rb", None)
     hw = HardwareView(hwm, None)
@@ -29,8 +68,17 @@ def both(hwm, old, new):
     except Exception as e:  # noqa
         res["dev"] = {"err": type(e).__name__}
     try:
-        _, d2, pre2, p2 = api._read_old_new_diff_patch(copy.deepcopy(old), copy.deepcopy(new), hw, False)
-        res["file"] = {"diff": diff_json(d2), "patch": patch_json(p2), "paths": [list(k) for k in fmt.cmd_paths(p2).keys()]}
+        via = _file_front_end(hwm, old, new, fmt)
+        if via is None:
+            STATS["direct"] += 1
+            o2, n2, hw2 = copy.deepcopy(old), copy.deepcopy(new), hw
+        else:
+            STATS["via_files"] += 1
+            o2, n2, hw2 = via
+        res["via_files"] = via is not None
+        _, d2, pre2, p2 = api._read_old_new_diff_patch(o2, n2, hw2, False)
+        fmt2 = registry_connector.get().match(hw2).make_formatter()
+        res["file"] = {"diff": diff_json(d2), "patch": patch_json(p2), "paths": [list(k) for k in fmt2.cmd_paths(p2).keys()]}
     except AssertionError:
         res["file"] = {"err": "AssertionError"}
     except Exception as e:  # noqa
@@ -42,6 +90,9 @@ def run(payload):
     sm = corpus.samples(os.environ["ANNET_VERIF_REPO_ROOT"])
     k, n = payload["shard"]
     jobs = [(s["name"], s["hw"], s["old"], s["new"]) for s in sm]
+    for s in sm:        # the same pairs on concrete models of the vendor
+        for m in MODELS.get(s["hw"], []):
+            jobs.append((f"{s['name']}@{m}", m, s["old"], s["new"]))
     # identical and merely reordered configurations: an empty diff does not imply an empty patch
     # (logic functions such as aruba.ap_env emit commands from unchanged rows)
     def reordered(t):
@@ -66,7 +117,8 @@ def run(payload):
             a, b = rng.choice(by_hw[hwm]), rng.choice(by_hw[hwm])
             side_a = rng.choice(["old", "new"])
             side_b = rng.choice(["old", "new"])
-            jobs.append((f"{a['name']}.{side_a}~{b['name']}.{side_b}", hwm, a[side_a], b[side_b]))
+            hwm2 = rng.choice([hwm] + MODELS.get(hwm, []))
+            jobs.append((f"{a['name']}.{side_a}~{b['name']}.{side_b}@{hwm2}", hwm2, a[side_a], b[side_b]))
     out = []
     for j, (name, hwm, old, new) in enumerate(jobs):
         if j % n != k:
